@@ -13,9 +13,11 @@ import (
 	"bytes"
 	"encoding/binary"
 	"fmt"
+	"io"
 	"math/big"
 	"net/netip"
 	"strings"
+	"sync"
 	"time"
 
 	"github.com/flynn/noise"
@@ -243,11 +245,24 @@ type nMach struct {
 }
 
 func (w *nWorld) newMach(id *nIdent, ver cert.Version, initiator bool, cipher, alloc uint64, allocErr bool) *nMach {
-	nm := &nMach{w: w, id: id, initiator: initiator, ver: ver, cipher: cipher, alloc: alloc, allocErr: allocErr,
-		creds: map[cert.Version]*handshake.Credential{}, now: 1}
-	suite := nSuite(w.dh, cipher)
+	return w.newMachShared(id, ver, initiator, cipher, alloc, allocErr, nil)
+}
+
+// the credentials of one node, built once and shared by all its machines (as pki.CertState does in production)
+func (w *nWorld) nodeCreds(id *nIdent, suite noise.CipherSuite) map[cert.Version]*handshake.Credential {
+	creds := map[cert.Version]*handshake.Credential{}
 	for v, ci := range id.creds {
-		nm.creds[v] = handshake.NewCredential(ci.cert, ci.bytes, ci.priv, suite)
+		creds[v] = handshake.NewCredential(ci.cert, ci.bytes, ci.priv, suite)
+	}
+	return creds
+}
+
+func (w *nWorld) newMachShared(id *nIdent, ver cert.Version, initiator bool, cipher, alloc uint64, allocErr bool, shared map[cert.Version]*handshake.Credential) *nMach {
+	nm := &nMach{w: w, id: id, initiator: initiator, ver: ver, cipher: cipher, alloc: alloc, allocErr: allocErr, now: 1}
+	if shared != nil {
+		nm.creds = shared
+	} else {
+		nm.creds = w.nodeCreds(id, nSuite(w.dh, cipher))
 	}
 	getCred := func(v cert.Version) *handshake.Credential { return nm.creds[v] }
 	verifier := func(c cert.Certificate) (*cert.CachedCertificate, error) {
@@ -1002,6 +1017,21 @@ func runNoiseC06(c *hx.Ctx) {
 			}
 		}
 	}
+	// several machines of ONE node on ONE shared credential set, two of them interleaved inside the window between
+	// marshalOutgoing and the use of its result in noise WriteMessage (forced through a hooked DH function), then a
+	// free-running concurrent variant
+	for _, w := range worlds {
+		for cipher := uint64(0); cipher < 2; cipher++ {
+			for _, initRole := range []bool{true, false} {
+				noiseSharedCred(c, cw, w, cipher, initRole, 2, true)
+				noiseSharedCred(c, cw, w, cipher, initRole, 3+c.Intn(3), true)
+			}
+		}
+	}
+	stress := 6 + c.N/10
+	for i := 0; i < stress; i++ {
+		noiseSharedCred(c, cw, worlds[i%2], uint64((i/2)%2), i%4 < 2, 4+c.Intn(5), false)
+	}
 	for i := 0; i < c.N; i++ {
 		w := worlds[c.Intn(2)]
 		one(w, uint64(c.Intn(2)), opts[c.Intn(len(opts))], ropts[c.Intn(len(ropts))], "random-honest")
@@ -1351,4 +1381,179 @@ func runNoiseMgr(c *hx.Ctx) {
 		s.emitAs(cw, "Noise_corr.C5Strict", kind, completions > 0, nil)
 	}
 	cw.Close("history through the real HandshakeManager in which the node completed at least one of the later handshakes")
+}
+
+// ---- C06: one node, one shared credential, interleaved handshakes -------------------------------------------
+
+// nHookDH wraps the real DH function of the cipher suite stored in a credential: the first GenerateKeypair call after
+// arm() signals `entered` and waits for `release`.  In WriteMessage GenerateKeypair runs after marshalOutgoing has
+// returned the payload and before the payload is used, which is exactly the window to interleave in.
+type nHookDH struct {
+	noise.DHFunc
+	mu      sync.Mutex
+	armed   bool
+	entered chan struct{}
+	release chan struct{}
+}
+
+func (h *nHookDH) arm() {
+	h.mu.Lock()
+	h.armed, h.entered, h.release = true, make(chan struct{}), make(chan struct{})
+	h.mu.Unlock()
+}
+
+func (h *nHookDH) GenerateKeypair(rng io.Reader) (noise.DHKey, error) {
+	h.mu.Lock()
+	gate := h.armed
+	h.armed = false
+	entered, release := h.entered, h.release
+	h.mu.Unlock()
+	if gate {
+		close(entered)
+		select {
+		case <-release:
+		case <-time.After(5 * time.Second):
+		}
+	}
+	return h.DHFunc.GenerateKeypair(rng)
+}
+
+// k handshakes of one node (identity A as initiator, or B as responder) whose machines share one credential set.
+// gated: machine 0 is held inside WriteMessage while machines 1.. run to completion of their step, then released.
+// Otherwise all k run their step concurrently without any gate.
+func noiseSharedCred(c *hx.Ctx, cw *hx.CaseWriter, w *nWorld, cipher uint64, initRole bool, k int, gated bool) {
+	hook := &nHookDH{DHFunc: w.dh}
+	var cf noise.CipherFunc = noise.CipherChaChaPoly
+	if cipher == 1 {
+		cf = noiseutil.CipherAESGCM
+	}
+	suite := noise.NewCipherSuite(hook, cf, noise.HashSHA256)
+	s := &nScript{w: w}
+	peers := []int{nB, nC, nD, nA}
+	var node *nIdent
+	if initRole {
+		node = w.ids[nA]
+	} else {
+		node = w.ids[nB]
+		peers = []int{nA, nC, nD}
+	}
+	shared := w.nodeCreds(node, suite)
+	ver := cert.Version2
+	// machines 0..k-1: the node's; k..2k-1: one peer each (own credentials)
+	for i := 0; i < k; i++ {
+		s.ms = append(s.ms, w.newMachShared(node, ver, initRole, cipher, nNonZero(c), false, shared))
+	}
+	for i := 0; i < k; i++ {
+		pid := w.ids[peers[c.Intn(len(peers))]]
+		pv := pid.def
+		if gated {
+			// all handshakes of the gated run go through the same one of the node's credentials (version 2)
+			for pid.creds[cert.Version2] == nil {
+				pid = w.ids[peers[c.Intn(len(peers))]]
+			}
+			pv = cert.Version2
+		}
+		s.ms = append(s.ms, w.newMach(pid, pv, !initRole, cipher, nNonZero(c), false))
+	}
+	// the concurrent step of the node's machines: Initiate, or ProcessPacket of the peer's message 1
+	var wires []nWire
+	if !initRole {
+		for i := 0; i < k; i++ {
+			s.init(k + i)
+		}
+		for i := 0; i < k; i++ {
+			wires = append(wires, s.wGenuine(k+i))
+		}
+	}
+	obs := make([]nObs, k)
+	step := func(i int) {
+		if initRole {
+			obs[i] = s.ms[i].doInit()
+		} else {
+			obs[i] = s.ms[i].doDeliver(wires[i].bytes)
+		}
+	}
+	var wg sync.WaitGroup
+	if gated {
+		hook.arm()
+		wg.Add(1)
+		go func() { defer wg.Done(); step(0) }()
+		select {
+		case <-hook.entered:
+		case <-time.After(5 * time.Second):
+		}
+		for i := 1; i < k; i++ {
+			step(i)
+		}
+		close(hook.release)
+		wg.Wait()
+	} else {
+		start := make(chan struct{})
+		for i := 0; i < k; i++ {
+			wg.Add(1)
+			go func(i int) { defer wg.Done(); <-start; step(i) }(i)
+		}
+		close(start)
+		wg.Wait()
+	}
+	for i := 0; i < k; i++ {
+		if initRole {
+			s.add(fmt.Sprintf("Noise_corr.AInit %d%%nat", i), obs[i], "Noise_corr.TNone", map[string]any{"op": "initiate", "m": i, "obs": obs[i].json()})
+		} else {
+			s.add(fmt.Sprintf("Noise_corr.ADeliver %d%%nat %s", i, wires[i].lit), obs[i], s.genuineTag(i, k+i),
+				map[string]any{"op": "deliver", "to": i, "what": "genuine", "obs": obs[i].json()})
+		}
+	}
+	// the rest of every exchange, one after the other
+	var honest [][2]int
+	all := true
+	for i := 0; i < k; i++ {
+		if initRole {
+			o1 := s.deliver(k+i, s.wGenuine(i), s.genuineTag(k+i, i))
+			ok := false
+			if o1.hasOut {
+				ok = s.deliver(i, s.wGenuine(k+i), s.genuineTag(i, k+i)).hasRes && o1.hasRes
+			}
+			if ok {
+				honest = append(honest, [2]int{i, k + i})
+			}
+			all = all && ok
+		} else {
+			ok := false
+			if obs[i].hasOut {
+				ok = s.deliver(k+i, s.wGenuine(i), s.genuineTag(k+i, i)).hasRes && obs[i].hasRes
+			}
+			if ok {
+				honest = append(honest, [2]int{k + i, i})
+			}
+			all = all && ok
+		}
+	}
+	mode := "gated"
+	if !gated {
+		mode = "free-running"
+	}
+	role := "responders"
+	if initRole {
+		role = "initiators"
+	}
+	// every exchange must complete: an exchange that did not is reported as a pair without results (spec_c06 refuses it)
+	if !all {
+		for i := 0; i < k; i++ {
+			pair := [2]int{i, k + i}
+			if !initRole {
+				pair = [2]int{k + i, i}
+			}
+			found := false
+			for _, h := range honest {
+				if h == pair {
+					found = true
+				}
+			}
+			if !found {
+				honest = append(honest, pair)
+			}
+		}
+	}
+	s.emit(cw, fmt.Sprintf("shared-credential/%s/%d-%s/%s/cipher%d", mode, k, role, w.curve, cipher), all, honest)
 }
